@@ -3,6 +3,7 @@ import PlumpyModel.PM.Proof12
 import PlumpyModel.PM.Proof14
 import PlumpyModel.PM.Proof15
 import PlumpyModel.PM.Proof16
+import PlumpyModel.PM.Proof18
 import PlumpyModel.PM.Proof13
 import PlumpyModel.PM.LProof12
 import PlumpyModel.Status.Model
@@ -14,16 +15,19 @@ Model: `PMF`.  Every activation of a step function or continuation is logged in 
 
 Transparency itself ("the executed steps, the context and the final result are those of the uninterrupted run") is proved
 below as a simulation between the run with pause/play requests and the run of its *reference history* (the same history
-without pause and play and without some of its ticks), for three nested classes of histories of ticks, pause and play requests
-placed anywhere, and wake-up requests (`resume`, completion of an awaited future, its done-callback, `call_soon`, a
-non-raising callback) placed
+without pause and play and without some of its ticks; in the fourth class some ticks are also moved later), for four nested
+classes of histories of ticks, pause and play requests placed anywhere, and wake-up requests (`resume`, completion of an
+awaited future, its done-callback, `call_soon`, a non-raising callback) placed
 * at moments at which no pause is in effect (`C05_transparent_partial`, `PM/Proof12.lean`);
 * also while the process is held by a pause on a wait (`C05_transparent_partial2`, `PM/Proof14.lean`);
 * also between a pause request that interrupted a pending wait and the next tick (`C05_transparent_partial3`,
-  `PM/Proof16.lean`; fuel hypothesis with one iteration of slack).
-Still excluded: wake-ups while the process is held at a step boundary in CREATED or RUNNING (the reference run is then ahead
-by the next step, and the wake-up has to be moved *before* the tick that ended the previous step), and histories with
-kill / fail / cancel / failing callbacks.  The unrestricted statement `C05_transparent_full` is **false** as it stands
+  `PM/Proof16.lean`; fuel hypothesis with one iteration of slack);
+* also — `resume`, `call_soon`, non-raising callbacks, the completion of futures the state just left did not await — while the
+  process is held at a step boundary in CREATED or RUNNING (`C05_transparent_partial4`, `PM/Proof17.lean`, `Proof18.lean`): the
+  reference run is then ahead by the next step, and the reference history delivers those requests *before* the tick that ended
+  the previous step, by deferring that tick.
+Still excluded: during such a hold, the completion of a future that the state just left awaited and the run of a done-callback;
+histories with kill / fail / cancel / failing callbacks.  The unrestricted statement `C05_transparent_full` is **false** as it stands
 (`C05_transparent_full_false`, `PM/Proof15.lean`: a program that awaits one future under two context keys — the real
 `to_context` keeps one key per future); the statement to aim at is `C05_transparent_full_distinct`.  The interleavings outside
 the proved classes are decided by the Python monitor `c05-transparent` only.
@@ -263,7 +267,12 @@ example : ¬ B10.AwDistinct dupP := by
 /-- **transparency, full statement for programs that never await the same future twice in one `ToContext`** (`AwDistinct`,
 the dict semantics of `Waiting._awaiting`).  Not proved: `C05_transparent_full_on_partial3` proves the instances in which the
 wake-ups arrive anywhere except while the process is held at a step boundary in CREATED or RUNNING, with the identity
-permutation.  An exhaustive search (Lean interpreter, all `admissibleFull` histories of length ≤ 11 of a two-wait workchain
+permutation and an erasure; `C05_transparent_full_on_partial4` adds, at those positions, `resume`, the completion of a future
+that the state just left did not await (and `call_soon` / non-raising callbacks, which `admissibleFull` does not mention),
+again with the identity permutation of the requests, ticks being moved.  Missing: at those positions, the completion of a
+future the state just left awaited (its done-callback is scheduled in one run and dropped by `Waiting.exit` in the other: the
+relation would have to tolerate a scheduled callback that never runs) and the run of a done-callback (it has to file the
+result under the same key on a WAITING state and on a state that was left — where `AwDistinct` is needed).  An exhaustive search (Lean interpreter, all `admissibleFull` histories of length ≤ 11 of a two-wait workchain
 with synchronous and asynchronous steps, ≈ 170 000 terminated histories) found no counterexample, and none that needs a
 reordering of the requests: in the model, moving ticks suffices (in ≈ 20 000 of them the erasure `unpaused` does not work and
 a wake-up has to come *before* the tick that ended the previous step).  On the real library the loop is FIFO, so there the
@@ -426,6 +435,118 @@ theorem C05_partial3_extends_partial2 (P : Prog) (c : Cfg) (evs : List Ev) (h : 
 theorem C05_fuel_slack (P : Prog) (c : Cfg) (evs : List Ev) (h : fuelOkN P (fuel0 - 1) c evs = true) : fuelOk P c evs = true :=
   fuelOkN_le P _ fuel0_pred_le evs c h
 
+/-! ### fourth part: wake-ups while the process is held at a step boundary in CREATED or RUNNING
+
+There the reference run is ahead by the next step, and a wake-up has to reach it *before* the tick that ended the previous
+step.  `unpaused4` (helper lemmas in `PM/Proof17.lean`, `PM/Proof18.lean`) **defers that tick**: a tick of the run with pauses
+whose first step ends with the pause taking effect at a step boundary in CREATED or RUNNING (`defers`) is not emitted when it
+happens but when the held stepping task is woken, or after the last request; the wake-ups of the hold are emitted at once.
+The reference history is no longer an erasure: it is a *permutation* of an erasure in which only ticks have moved (later) —
+the requests other than ticks keep their order (`C05_reference_history4`).  While a tick is deferred the two runs are related by
+`Pend`: the run with pauses corresponds to `firstStep d`, the reference configuration after the first step of the tick it
+has not received yet; a wake-up keeps that because it commutes with that step (`C05_wakeup_commutes_with_first_step`). -/
+
+/-- **transparency (fourth partial class): the run with pauses is simulated by the run of its reference history.**
+For every program and every history of ticks, `pause`, `play` anywhere, the wake-ups of `C05_transparent_partial3` at the
+positions admitted there, **and**, while the process is held at a step boundary in CREATED or RUNNING by a pause that took
+effect after the first step of a tick (`defers`: the stepping task was not suspended on a pause future, its wait not
+interrupted, and that step was a transition into RUNNING — the user code returned a continuation, or the wait had been resumed
+with a value — or the task had not started yet), the requests `pendOk L`: `resume` (refused: the process is not WAITING),
+`call_soon`, the run of a non-raising scheduled callback, and the completion of any external future that carried no
+done-callback when that tick started (`L`: the futures the program was waiting on; in particular every future the program has
+not awaited yet).  The reference history `unpaused4` delivers these requests *before* the tick after which the process was
+held.  At the end of the history the two runs are related by `Sim3`, the relation of the third class.
+
+Still excluded (by `admissible4`, a decidable predicate on the history): during such a hold, the completion of a future that
+carried a done-callback when the deferred tick started and the run of a done-callback (`tickCb (adone f)`; on a program
+that awaits one future under two keys this is where `C05_transparent_full_false` lives); wake-ups at a hold in CREATED or
+RUNNING that did not begin with a `defers` tick (none is known to be reachable); kill / fail / cancel / a failing callback. -/
+theorem C05_transparent_partial4 (P : Prog) (nf : Nat) (evs : List Ev)
+    (hadm : admissible4 P false none (init nf) evs = true)
+    (hfuel : fuelOkN P (fuel0 - 1) (init nf) (unpaused4 P false none (init nf) evs) = true) :
+    ∃ g, Sim3 P g (run P (init nf) evs) (run P (init nf) (unpaused4 P false none (init nf) evs)) :=
+  run_sim4 P evs false none _ _ (sim4_init P nf) (invP_init nf) (inv_init nf) hadm hfuel
+
+/-- **same steps, same context, same result (fourth partial class)**: under the hypotheses of `C05_transparent_partial4`, if
+the run with pauses has terminated then the reference run (no pause, no play, the same other requests in the same order,
+ticks dropped or moved later) has terminated in the same state object, with the same executed steps (functions, arguments,
+keyword arguments), context, process future, log of entered states, cleanups and — apart from paused/played — listener
+notifications; and nothing ran while paused. -/
+theorem C05_same_result_partial4 (P : Prog) (nf : Nat) (evs : List Ev)
+    (hadm : admissible4 P false none (init nf) evs = true)
+    (hfuel : fuelOkN P (fuel0 - 1) (init nf) (unpaused4 P false none (init nf) evs) = true)
+    (hterm : terminal (run P (init nf) evs).st.label = true) :
+    (run P (init nf) (unpaused4 P false none (init nf) evs)).st = (run P (init nf) evs).st ∧
+    (run P (init nf) (unpaused4 P false none (init nf) evs)).trace = (run P (init nf) evs).trace ∧
+    (run P (init nf) (unpaused4 P false none (init nf) evs)).ctx = (run P (init nf) evs).ctx ∧
+    (run P (init nf) (unpaused4 P false none (init nf) evs)).fut = (run P (init nf) evs).fut ∧
+    (run P (init nf) (unpaused4 P false none (init nf) evs)).entered = (run P (init nf) evs).entered ∧
+    (run P (init nf) (unpaused4 P false none (init nf) evs)).cleanups = (run P (init nf) evs).cleanups ∧
+    (run P (init nf) (unpaused4 P false none (init nf) evs)).notif.filter notPP = (run P (init nf) evs).notif.filter notPP ∧
+    (∀ a ∈ (run P (init nf) evs).trace, a.paused = false) := by
+  obtain ⟨g, hs⟩ := C05_transparent_partial4 P nf evs hadm hfuel
+  obtain ⟨h1, h2⟩ := hs.of_terminal hterm
+  obtain ⟨g1, g2, g3, g4, g5, g6, g7, g8, g9, g10, g11, g12, g13, g14, g15⟩ := sh_fields h2
+  exact ⟨h1, g12, g9, g2, g11, g5, g14, C05_nothing_runs_while_paused P nf evs⟩
+
+/-- **never ahead, never out of order (fourth partial class)**: at the end of every such history (hence, the class being
+closed under prefixes, at every moment of it — the reference history of a prefix ends with the deferred tick, if any) the
+steps executed so far by the run with pauses are the older part of what the reference run has executed. -/
+theorem C05_never_ahead_partial4 (P : Prog) (nf : Nat) (evs : List Ev)
+    (hadm : admissible4 P false none (init nf) evs = true)
+    (hfuel : fuelOkN P (fuel0 - 1) (init nf) (unpaused4 P false none (init nf) evs) = true) :
+    ∃ later, (run P (init nf) (unpaused4 P false none (init nf) evs)).trace = later ++ (run P (init nf) evs).trace := by
+  obtain ⟨g, hs⟩ := C05_transparent_partial4 P nf evs hadm hfuel
+  exact hs.never_ahead
+
+/-- **the reference history of the fourth class**: it contains no pause and no play; its requests other than ticks are those
+of `erasePP evs` **in the same order** — in particular a permutation of them, the clause of `C05_transparent_full`: the
+wake-ups of a hold reach the reference run before the tick that preceded them because the *tick* is moved, not they —; and up
+to one tick delivered after the last request it is a sublist of `erasePP evs` (ticks are dropped, or emitted in the place of a
+later tick). -/
+theorem C05_reference_history4 (P : Prog) (g : Bool) (p : Option (List Nat)) (c : Cfg) (evs : List Ev) :
+    (∀ e ∈ unpaused4 P g p c evs, e ≠ .pause ∧ e ≠ .play) ∧
+    (unpaused4 P g p c evs).filter (fun e => !isTick e) = (erasePP evs).filter (fun e => !isTick e) ∧
+    ((unpaused4 P g p c evs).filter (fun e => !isTick e)).Perm ((erasePP evs).filter (fun e => !isTick e)) ∧
+    (unpaused4 P g p c evs).Sublist (erasePP evs ++ [.tick]) :=
+  ⟨unpaused4_no_pp P evs g p c, unpaused4_nonticks P evs g p c, by rw [unpaused4_nonticks P evs g p c],
+    unpaused4_sublist P evs g p c⟩
+
+/-- **the instance of the full statement for the fourth class**: for these histories the reference history required by
+`C05_transparent_full` / `C05_transparent_full_distinct` exists (fuel hypothesis with one iteration of slack). -/
+theorem C05_transparent_full_on_partial4 (P : Prog) (nf : Nat) (evs : List Ev)
+    (hadm : admissible4 P false none (init nf) evs = true) :
+    ∃ evs' : List Ev, (∀ e ∈ evs', e ≠ .pause ∧ e ≠ .play) ∧
+      (evs'.filter (fun e => !isTick e)).Perm ((erasePP evs).filter (fun e => !isTick e)) ∧
+      (fuelOkN P (fuel0 - 1) (init nf) evs' = true → terminal (run P (init nf) evs).st.label = true →
+        (run P (init nf) evs').st = (run P (init nf) evs).st ∧
+        (run P (init nf) evs').trace = (run P (init nf) evs).trace ∧
+        (run P (init nf) evs').ctx = (run P (init nf) evs).ctx) := by
+  obtain ⟨r1, _, r3, _⟩ := C05_reference_history4 P false none (init nf) evs
+  refine ⟨unpaused4 P false none (init nf) evs, r1, r3, ?_⟩
+  intro hf ht
+  obtain ⟨h1, h2, h3, _⟩ := C05_same_result_partial4 P nf evs hadm hf ht
+  exact ⟨h1, h2, h3⟩
+
+/-- **the fourth class contains the third** (and hence the second and the first) -/
+theorem C05_partial4_extends_partial3 (P : Prog) (c : Cfg) (evs : List Ev) (h : admissible3 P false c evs = true) :
+    admissible4 P false none c evs = true :=
+  admissible3_sub4 P evs false none c h
+
+/-- **a wake-up request commutes with the step after which the process is held** (the one-step fact behind the fourth class,
+on any configuration `d` without pending interrupt action, live and not closed): if the first step of the next tick is a
+transition into RUNNING — the user code suspended at its last `await` returns a continuation, or the wait of the stepping
+task has a result — or the stepping task has not started (`okFirst`), and the request `e` is a `resume` (`ResumeNoop`: the
+state is not WAITING or its wait has a result, so the request changes nothing), a `call_soon`, the run of a non-raising
+scheduled callback, or the completion of a future that carries no done-callback (`pendOk L`, `L` ⊇ the futures carrying one),
+then delivering `e` before that step or after it gives the same configuration.  It fails for the completion of a future the
+state being left awaits: before the step the done-callback is scheduled, after it the callback was dropped by `Waiting.exit`. -/
+theorem C05_wakeup_commutes_with_first_step (P : Prog) (L : List Nat) (d : Cfg) (e : Ev) (hok : okFirst d = true)
+    (hi : d.interrupt = none) (hl : terminal d.st.label = false) (hc : d.closed = false) (hr : ResumeNoop d)
+    (hL : ∀ f, f ∈ d.efCb → f ∈ L) (he : pendOk L e = true) :
+    firstStep (step P d e).1 = (step P (firstStep d) e).1 :=
+  firstStep_wake_comm P L d e hok hi hl hc hr hL he
+
 -- non-vacuity: a pause takes effect at the step boundary, the continuation only runs after play
 section
 private def two : Prog := fun fn _ _ _ => if fn = 0 then ⟨1, .ret (.cont 1 [] [])⟩ else ⟨0, .ret (.stop none true)⟩
@@ -527,6 +648,49 @@ example : admissible3 wc4 false (init 2) wc4Hist = true := by decide +kernel
 example : fuelOkN wc4 (fuel0 - 1) (init 2) (unpaused3 wc4 false (init 2) wc4Hist) = true := by decide +kernel
 example : (run wc4 (init 2) wc4Hist).st = .finished (some 3) true ∧ (run wc4 (init 2) wc4Hist).ctx = [(6, 4), (5, 3)] := by
   decide +kernel
+-- fourth class: (a) the wait is resumed, a pause is requested, the next tick leaves the wait and the pause takes effect at
+-- the boundary before step 1 (RUNNING): the reference run executes steps 1 and 2 in that tick.  During the hold: `call_soon`,
+-- a refused `resume`, the completion of a future the program never awaits; play; the callback runs.  `admissible3` rejects
+-- the history; the reference history delivers the three requests before the tick (which it emits in place of the waking tick)
+private def crHist : List Ev :=
+  [.tick, .tick, .resume (some 7), .pause, .tick, .callSoon false, .resume (some 9), .complete 0 (.result 3), .play, .tick,
+   .tickCb (.usercb false), .tick]
+example : admissible3 wt false (init 1) crHist = false := by decide +kernel
+example : admissible4 wt false none (init 1) crHist = true := by decide +kernel
+example : unpaused4 wt false none (init 1) crHist =
+    [.tick, .tick, .resume (some 7), .callSoon false, .resume (some 9), .complete 0 (.result 3), .tick, .tickCb (.usercb false),
+     .tick] := by decide +kernel
+example : fuelOkN wt (fuel0 - 1) (init 1) (unpaused4 wt false none (init 1) crHist) = true := by decide +kernel
+example : (run wt (init 1) crHist).st = .finished (some 7) true ∧ (run wt (init 1) crHist).trace.length = 3 := by decide +kernel
+-- (b) workchain: the pause is requested inside the asynchronous step 0 and takes effect at the boundary before step 1; while
+-- the process is held the future that step 1 is going to await completes (and a callback is scheduled); after play step 1
+-- finds the future done, its done-callback files the result, step 2 returns it
+private def wc5 : Prog := fun fn _ _ ctx =>
+  match fn with
+  | 0 => ⟨1, .ret (.cont 1 [] [])⟩
+  | 1 => ⟨0, .ret (.waitOn 2 [(0, 5)])⟩
+  | _ => ⟨0, .ret (.stop ((ctx.find? (·.1 = 5)).map (·.2)) true)⟩
+private def wc5Hist : List Ev :=
+  [.tick, .pause, .tick, .complete 0 (.result 3), .callSoon false, .play, .tick, .tickCb (.adone 0), .tickCb (.usercb false),
+   .tick]
+example : admissible3 wc5 false (init 1) wc5Hist = false := by decide +kernel
+example : admissible4 wc5 false none (init 1) wc5Hist = true := by decide +kernel
+example : unpaused4 wc5 false none (init 1) wc5Hist =
+    [.tick, .complete 0 (.result 3), .callSoon false, .tick, .tickCb (.adone 0), .tickCb (.usercb false), .tick] := by
+  decide +kernel
+example : fuelOkN wc5 (fuel0 - 1) (init 1) (unpaused4 wc5 false none (init 1) wc5Hist) = true := by decide +kernel
+example : (run wc5 (init 1) wc5Hist).st = .finished (some 3) true ∧ (run wc5 (init 1) wc5Hist).ctx = [(5, 3)] ∧
+    (run wc5 (init 1) wc5Hist).trace.length = 3 := by decide +kernel
+-- a history that ends while the tick is still deferred: the reference history delivers it last
+example : unpaused4 wc5 false none (init 1) [.tick, .pause, .tick, .complete 0 (.result 3)] =
+    [.tick, .complete 0 (.result 3), .tick] := by decide +kernel
+-- the hypotheses of `C05_wakeup_commutes_with_first_step` are satisfiable: `wc5` suspended at the `await` of step 0
+example : okFirst (run wc5 (init 1) [.tick]) = true ∧ (run wc5 (init 1) [.tick]).interrupt = none ∧
+    terminal (run wc5 (init 1) [.tick]).st.label = false ∧ (run wc5 (init 1) [.tick]).closed = false ∧
+    (run wc5 (init 1) [.tick]).efCb = [] ∧ pendOk [] (.complete 0 (.result 3)) = true := by decide +kernel
+example : ResumeNoop (run wc5 (init 1) [.tick]) := Or.inl (by
+  have : (run wc5 (init 1) [.tick]).st = .running 0 [] [] := by decide +kernel
+  rw [this]; intro a b c d h; cases h)
 end
 /-!
 ## pause / play requested DURING a transition (listeners, state-event callbacks)
